@@ -635,3 +635,16 @@ func writeFileReplace(path, old, new string) error {
 	}
 	return os.WriteFile(path, []byte(strings.Replace(string(b), old, new, 1)), 0o644)
 }
+
+// runGoDir builds and runs the Go module in dir with the local toolchain (calibration only).
+func runGoDir(dir string) (string, string, bool) {
+	ctx, cancel := context.WithTimeout(context.Background(), 10*time.Minute)
+	defer cancel()
+	cmd := exec.CommandContext(ctx, "go", "run", ".")
+	cmd.Dir = dir
+	cmd.Env = append(os.Environ(), "GOFLAGS=-mod=mod", "GOPROXY=off", "GOSUMDB=off", "GOTOOLCHAIN=local")
+	var so, se bytes.Buffer
+	cmd.Stdout, cmd.Stderr = &so, &se
+	err := cmd.Run()
+	return so.String(), se.String(), err == nil
+}
